@@ -10,6 +10,7 @@ import numpy as np
 import sympy
 
 import core
+import cppgen
 import ekf_h as eh
 import fk
 import gen
@@ -180,11 +181,40 @@ def run(ctx):
                 ctx.fail("discard-not-identity" if not moved else "discard-missed",
                          f"NIS {float(want['nis'])!r} > threshold {thr!r}: the reading must be discarded and estimate/covariance left exactly as they were", case)
             elif not should and not moved:
+                if eh.mat_close(np.array([[float(x) for x in r] for r in want["P"]]), P):
+                    # the exact update itself leaves the covariance within tolerance of the prior (a nearly flat reading):
+                    # whether the reading was used cannot be told from the result
+                    ctx.count("update_indistinguishable_from_discard"); continue
                 ctx.fail("discard-spurious", f"NIS {float(want['nis'])!r} <= threshold {thr!r} (k={k}): the reading was discarded", case)
             y_rec = np.asarray(ekf.innovations[key], dtype=float)
             if not eh.mat_close(y_rec, [[v] for v in want["y"]]):
                 ctx.fail("discard-innovation-not-recorded", "the innovation recorded for a reading differs from z - h(x)", case)
+    generated_threshold(ctx)
     return core.finish(ctx, audit, NOTE, RULE, PARTIAL)
+
+
+def generated_threshold(ctx):
+    """the generated C++ filter decides with the threshold it was configured with (the constant in the header, bit for bit)"""
+    jobs, metas = [], []
+    for i, k in enumerate([2.3456789, 3.0000004, 1.0 / 3.0] if ctx.quick else [2.3456789, 3.0000004, 1.0 / 3.0, 1.23456749e-3, 4e-7, 7.0]):
+        d = gen.tame_definition(ctx.rng, n_state=2, n_control=0, n_sensors=1, max_readings=1)
+        d._kind = "ekf"
+        process, sensor = eh.make_noises(ctx.rng, d)
+        try:
+            g = cppgen.generate(d, process, sensor, {}, ctx.scratch, f"t{i}", filtering=k, rng=ctx.rng)
+        except Exception as e:
+            ctx.fail(f"cpp-generate-raises:{fk.exc_kind(e)}", repr(e)[:300], {"k": k}); continue
+        jobs.append((g, d, None)); metas.append(k)
+    for k, (exe, err) in zip(metas, cppgen.build_many(jobs)):
+        case = {"stream": "generated-threshold", "k": k}
+        ctx.case(case, True); ctx.count("stream=generated-threshold")
+        if exe is None:
+            ctx.fail("generated-cpp-does-not-compile", err[-300:], case); continue
+        lay = cppgen.run_exe(exe, ["layout"])[0]
+        got = rh.bitsf(lay["config.innovation_filtering"])
+        if got != float(k):
+            ctx.fail("cpp-threshold-constant", f"generated C++ filter edits with k = {got!r}, configured k = {k!r}: the Python and C++ filters "
+                     "take different decisions for NIS between the two limits", case)
 
 
 def replay(ctx, data):
